@@ -847,3 +847,25 @@ v("C20", "C-occupancy-augassign", "silent", "codec/formats/coord_list.py",
 v("C03", "getPayloadRef-presence-from-value", "fire", F,
   "        if self._coordExists(coords[0], index):\n            payload = self.payloads[index]\n        else:\n            payload = self._create_payload(coords[0])",
   "        if self._coordExists(coords[0], index) and not Payload.isEmpty(self.payloads[index], default=self.getDefault()):\n            payload = self.payloads[index]\n        else:\n            payload = self._create_payload(coords[0])", "C03.R5")
+
+# round 2
+seed("C01", "C01-b", "C01.R4")
+seed("C05", "C01-b", "C05.R3")
+seed("C02", "C02-b", "C02.R4")
+seed("C03", "C03-b", "C03.R6")
+seed("C04", "C04-b", "C04.R5")
+seed("C05", "C05-b", "C05.R3")
+seed("C07", "C07-b", "C07.R4")
+seed("C08", "C08-b", "C08.R5")
+seed("C09", "C09-b", "C09.R4")
+seed("C10", "C10-b", "C10.R6")
+seed("C11", "C11-b", "C11.R1")
+seed("C12", "C12-b", "C12.R1")
+seed("C13", "C13-b", "C13.R2")
+seed("C14", "C14-b", "C14.R1")
+seed("C15", "C15-b", "C15.R4")
+seed("C16", "C16-b", "C16.R4")
+seed("C17", "C17-b", "C17.R6")
+seed("C18", "C18-b", "C18.R1")
+seed("C19", "C19-b", "C19.R2")
+seed("C20", "C20-b", "C20.R5")
